@@ -334,7 +334,7 @@ impl<'t, 'd> GGen<'t, 'd> {
             3,                                   // 7 delimited / padded_by
             4,                                   // 8 map / to / ignored
             w(c.semantic, 5),                    // 9 filter / try_map / try_map_with
-            w(c.rep, 10),                        // 10 repetition
+            if c.rep { 10 } else { w(c.iter_then, 3) }, // 10 repetition (without `rep`: only or_not / into_iter item sources)
             w(c.validate, 6),                    // 11 validate
             w(c.recover, 6),                     // 12 recover_with
             w(c.label, 6),                       // 13 labelled
@@ -439,13 +439,13 @@ impl<'t, 'd> GGen<'t, 'd> {
                 }
             }
             10 => {
-                if self.cfg.iter_then && self.t.chance(1, 7) {
+                if self.cfg.iter_then && (!self.cfg.rep || self.t.chance(1, 7)) {
                     // one or two item sources joined by then, consumed as one IterParser
                     let n = 1 + self.t.pick(2);
                     let mut parts = vec![];
                     let mut g2 = guarded;
                     for _ in 0..n {
-                        let part = match self.t.weighted(&[4, 3, 2]) {
+                        let part = match self.t.weighted(&[if self.cfg.rep { 4 } else { 0 }, 3, 2]) {
                             0 => {
                                 let mut r = self.gen_rep(d, g2);
                                 r.sink = Sink::Vec;
